@@ -569,6 +569,9 @@ harness!(#[kani::stub(alloc::fmt::format, stub_format)] prune_3_sp, 32, |t| { pr
 harness!(#[kani::stub(alloc::fmt::format, stub_format)] prune_2_lpp, 32, |t| { pruning::<2, 3>(t, Some([1, 4, 4])) });
 harness!(#[kani::stub(alloc::fmt::format, stub_format)] prune_2_spn, 32, |t| { pruning::<2, 3>(t, Some([2, 4, 3])) });
 
+harness!(#[kani::stub(alloc::fmt::format, stub_format)] prune_2_lp, 32, |t| { pruning::<2, 2>(t, Some([1, 4])) });
+harness!(#[kani::stub(alloc::fmt::format, stub_format)] prune_2_sp, 32, |t| { pruning::<2, 2>(t, Some([2, 4])) });
+
 harness_list!(
-    prune_3_s, prune_3_sn, prune_3_fnn, prune_3_lp, prune_3_sp, prune_2_lpp, prune_2_spn, merge_2x2_k3, merge_2x2_k4, merge_2x2_k5, merge_3x1_k3, merge_2x0_k3, merge_0x2_k3, merge_3x2_k3, merge3_conserve_111, merge3_conserve_211, merge3_conserve_221, bounds_3_k3_uu, bounds_3_k3_ui, bounds_3_k3_ue, bounds_3_k3_iu, bounds_3_k3_ii, bounds_3_k3_ie, bounds_3_k3_eu, bounds_3_k3_ei, bounds_3_k3_ee, bounds_4_k4_ie, bounds_4_k4_ei, concat_2x2_snn, concat_2x2_lpp, concat_2x2_spn, concat_2x2_fnp, concat_2x2_snp, concat_2x2_sps, concat_0x2_snn, concat_2x0_snn, concat3_empty_middle_snn, concat_0x2_lpp, concat_2x0_lpp, concat3_empty_middle_lpp, concat_0x2_spn, concat_2x0_spn, concat3_empty_middle_spn, prune_3_snn, prune_3_lpp, prune_3_spn, prune_3_fnp, prune_3_snp, prune_3_sps, prune_4_snn, prune_4_lpp, prune_4_spn, composed_ie_snp, composed_uu_snp, composed_ie_fnp, composed_uu_fnp, composed_ie_lpp, composed_uu_lpp,
+    prune_2_lp, prune_2_sp, prune_3_s, prune_3_sn, prune_3_fnn, prune_3_lp, prune_3_sp, prune_2_lpp, prune_2_spn, merge_2x2_k3, merge_2x2_k4, merge_2x2_k5, merge_3x1_k3, merge_2x0_k3, merge_0x2_k3, merge_3x2_k3, merge3_conserve_111, merge3_conserve_211, merge3_conserve_221, bounds_3_k3_uu, bounds_3_k3_ui, bounds_3_k3_ue, bounds_3_k3_iu, bounds_3_k3_ii, bounds_3_k3_ie, bounds_3_k3_eu, bounds_3_k3_ei, bounds_3_k3_ee, bounds_4_k4_ie, bounds_4_k4_ei, concat_2x2_snn, concat_2x2_lpp, concat_2x2_spn, concat_2x2_fnp, concat_2x2_snp, concat_2x2_sps, concat_0x2_snn, concat_2x0_snn, concat3_empty_middle_snn, concat_0x2_lpp, concat_2x0_lpp, concat3_empty_middle_lpp, concat_0x2_spn, concat_2x0_spn, concat3_empty_middle_spn, prune_3_snn, prune_3_lpp, prune_3_spn, prune_3_fnp, prune_3_snp, prune_3_sps, prune_4_snn, prune_4_lpp, prune_4_spn, composed_ie_snp, composed_uu_snp, composed_ie_fnp, composed_uu_fnp, composed_ie_lpp, composed_uu_lpp,
 );
